@@ -952,8 +952,10 @@ def monitors(tr, endT, cfg=CFG):
             if k == 0:
                 ok = any(sd[2] == h and sd[4] is None and lo <= sd[0] <= hi and qm_item(sd[5], ty, h, sd[0], True) for sd in sends)
             else:
+                # a heard question suppresses the host's own if its known answers are among the host's own when the own question is
+                # due (RFC 6762 7.3) - up to dupQ later, so `received` is taken at the end of the window for the heard alternative
                 ok = any(sd[2] == h and sd[4] is None and lo - cfg["dupQ"] <= sd[0] <= hi and qm_item(sd[5], ty, h, sd[0], False) for sd in sends) \
-                    or any(e[4] == h and e[5] and lo - cfg["dupQ"] <= e[0] <= hi and qm_item(e[6], ty, h, e[0], False) for e in dlvs)
+                    or any(e[4] == h and e[5] and lo - cfg["dupQ"] <= e[0] <= hi and qm_item(e[6], ty, h, hi, False) for e in dlvs)
             if not ok:
                 bad["K3"].append(["query-opportunity-missing", t, k, br])
 
